@@ -439,9 +439,12 @@ func (s *solver) checkSliced(pc []pcEntry, extra []*Term) (checkResult, Model, m
 		// more with three times the budget (a loaded machine must not turn a decidable
 		// query into an inconclusive check)
 		old := s.alt.timeout
-		s.alt.timeout = min(3*old, 180*time.Second)
-		res, model = s.alt.runScript(script, vars)
-		s.alt.timeout = old
+		res, model = runZ3OneShot(script, vars, min(3*old, 180*time.Second))
+		if res == resUnknown {
+			s.alt.timeout = min(3*old, 180*time.Second)
+			res, model = s.alt.runScript(script, vars)
+			s.alt.timeout = old
+		}
 		s.Retried++
 	}
 	if res != resUnknown {
@@ -572,21 +575,30 @@ func (s *solver) runScript(script string, vars []*Term) (checkResult, Model) {
 // mode (and after (reset)) cvc5 1.0 loses the preprocessing that decides these wrap-LIA
 // queries in well under a second (measured: 0.5 s one-shot vs unknown after 20 s).
 func (s *solver) runCVC5OneShot(script string, vars []*Term) (checkResult, Model) {
+	ms := int(s.timeout / time.Millisecond)
+	return runOneShot(script, vars, "(set-option :produce-models true)\n(set-logic ALL)\n", "cvc5", "--lang=smt2", fmt.Sprintf("--tlimit=%d", ms))
+}
+
+// runZ3OneShot: a fresh z3 5.1.0 process for one query with its own time budget.
+func runZ3OneShot(script string, vars []*Term, budget time.Duration) (checkResult, Model) {
+	return runOneShot(script, vars, "", "z3-new", "-in", fmt.Sprintf("-T:%d", int(budget/time.Second)))
+}
+
+func runOneShot(script string, vars []*Term, header string, cmdName string, args ...string) (checkResult, Model) {
 	var names []string
 	for _, v := range vars {
 		names = append(names, smtName(v.name))
 	}
 	var in strings.Builder
-	in.WriteString("(set-option :produce-models true)\n(set-logic ALL)\n")
+	in.WriteString(header)
 	in.WriteString(script)
 	in.WriteString("(check-sat)\n")
-	ms := int(s.timeout / time.Millisecond)
 	run := func(withModel bool) (string, error) {
 		full := in.String()
 		if withModel && len(names) > 0 {
 			full += "(get-value (" + strings.Join(names, " ") + "))\n"
 		}
-		cmd := exec.Command("cvc5", "--lang=smt2", fmt.Sprintf("--tlimit=%d", ms))
+		cmd := exec.Command(cmdName, args...)
 		cmd.Stdin = strings.NewReader(full)
 		out, err := cmd.CombinedOutput()
 		return string(out), err
